@@ -402,6 +402,9 @@ pub fn run(ctx: &Ctx) -> PropResult {
         judge_file(rec, rng, &format!("synthetic-large#{} ({} bytes)", idx, bytes.len()), None, &bytes, "synthetic", 40, dref, e2e);
         let _ = std::fs::remove_file(&path);
     }));
+    // Offset::Local must follow the zone file when it changes behind the same name (rewritten, same size and mtime,
+    // symlink target replaced, symlink re-pointed, removed and recreated)
+    wls.push(Workload::cases("zone_replaced_behind_the_same_name", ctx.count(600, 20_000), |rec, _, rng| super::localzone::same_name_case(rec, rng, "C18")));
     wls.push(Workload::cases("interleaved_lookups_across_zones", ctx.count(250, 10_000), move |rec, _idx, rng| {
         let mut zones: Vec<(String, Vec<u8>)> = vec![];
         // one table as a v1 file (no footer) and as a v2/v3 file (with footer) ...
@@ -441,7 +444,9 @@ pub fn run(ctx: &Ctx) -> PropResult {
     meta.required_bins = vec![
         "file/v1", "file/v2", "file/v3", "footer/fixed", "footer/M-rules", "footer/J-rules", "footer/n-rules", "footer/negative-dst", "footer/southern-hemisphere", "table/empty", "table/non-empty",
         "lookup/at-a-transition", "lookup/between-transitions", "lookup/at-last-transition", "lookup/after-last-rule-dst", "lookup/after-last-rule-std", "lookup/no-table-footer", "end-to-end/Offset::Local", "interleaved/judged", "file/larger-than-64KiB", "file/larger-than-128KiB",
+        "same-name/regular-file-rewritten", "same-name/same-size-and-mtime", "same-name/symlink-target-replaced", "same-name/symlink-repointed", "same-name/removed-and-recreated", "same-name/followed-the-file",
     ];
+    meta.rule.push_str(" Offset::Local (hooked path) before and after the zone changes behind the same name — rewritten in place, rewritten with the same size and the old mtime restored, symlink target replaced by rename, symlink re-pointed, removed and recreated — must apply the file as it is now (resolve, getters, format, setters against the Fixed twin).");
     meta.assumptions = vec!["tzif_ref is the reference; its agreement with CPython zoneinfo on the dumped lookups is checked by the driver (disagreement ⇒ inconclusive)".into()];
     Ok((meta, out))
 }
